@@ -144,7 +144,7 @@ def run(ctx):
             if n > 1500 and quick and rng.random() < 0.7:
                 n = rng.randint(20, 400)
             ds = digits_for(qq, L)
-            ring = "[C]" * n + "[%sRing%d]" % (rng.choice(["", "=", ""]), L) + "".join(ds) + "[O]"
+            ring = "[C]" * n + "[%sRing%d]" % (rng.choice(["", "=", "", "#", "/-", "\\/"]), L) + "".join(ds) + "[O]"
             j.one(ring, "index-ring")
             br = "[S]" + "[%sBranch%d]" % (rng.choice(["", "=", "#"]), L) + "".join(ds) + "[C]" * n + "[O][F]"
             j.one(br, "index-branch")
